@@ -67,7 +67,8 @@ ProtViol(r) == r.path \in cfg.protected /\ r.ph = "call" /\
                \/ r.ev = "open" /\ (r.acc # "r" \/ r.trunc)
 RenameSrcProt(r) == r.ev = "rename" /\ r.ph = "call" /\ r.src \in cfg.protected
 
-SetToSeq(S) == CHOOSE f \in [1..Cardinality(S) -> S] : \A i, j \in 1..Cardinality(S) : i # j => f[i] # f[j]
+RECURSIVE SetToSeq(_)
+SetToSeq(S) == IF S = {} THEN <<>> ELSE LET x == CHOOSE x \in S : TRUE IN <<x>> \o SetToSeq(S \ {x})
 
 EndVerdict(r) ==
   LET ok == r.exit = 0
